@@ -552,6 +552,7 @@ func lemmaHandOverThenCreate(rt *esdtNFTCreateRoleTransfer, cr *esdtNFTCreate, o
 //@   ensures[C04] err == nil && !readFailed && !vmInput.ReturnCallAfterError && !isNil(acntDst) && dst != ESDTSC() && snd != dst && snd != SYS() ==> !frozen(old(St), dst, K) && !paused(old(St), K)
 //@   ensures[C09] err == nil ==> shardOf(dst) != 4294967295
 //@   ensures[C09] err == nil && !isNil(acntDst) && mustVerify(vmInput, 2) ==> payable(dst)
+//@   ensures[C10] err != nil && isNil(acntSnd) && !isNil(acntDst) && !failed && !readFailed && vmInput != nil && vmInput.CallValue != nil && bigval(vmInput.CallValue) == 0 && len(vmInput.Arguments) >= 2 && q > 0 && shardOf(dst) != 4294967295 ==> (mustVerify(vmInput, 2) && !payable(dst)) || (len(old(St)[dst][K]) != 0 && dType(old(St)[dst][K]) != 0) || (!vmInput.ReturnCallAfterError && dst != ESDTSC() && (frozen(old(St), dst, K) || paused(old(St), K)))
 //@   ensures[C01,C10] err == nil && isNil(acntDst) && isSC(snd) ==> has(out.OutputAccounts, dst) && seq(out.OutputAccounts[dst].OutputTransfers[0].Data) == wireOf("ESDTTransfer", vmInput.Arguments)
 //@   ensures[C01,C10] err == nil && isNil(acntDst) && !isSC(snd) ==> out.OutputAccounts == nil
 //@   ensures[C15] err == nil ==> WFvalues(St)
@@ -577,7 +578,7 @@ func lemmaHandOverThenCreate(rt *esdtNFTCreateRoleTransfer, cr *esdtNFTCreate, o
 //@   requires !isNil(e.marshalizer) && !isNil(e.pauseHandler) && !isNil(e.payableHandler) && !isNil(e.shardCoordinator) && !isNil(e.accounts) && esdtPrefix(e.keyPrefix)
 //@   requires sndIsCaller(acntSnd, vmInput) && dstIsRecipient(acntDst, vmInput) && WFvalues(St)
 //@   requires costBound(e.funcGasCost) && costBound(e.gasConfig.DataCopyPerByte)
-//@   requires vmInput != nil && len(vmInput.Arguments) >= 4 && !senderSide ==> dHasMeta(a3) && !dValNil(a3) && dVal(a3) > 0
+//@   requires vmInput != nil && len(vmInput.Arguments) >= 4 && !senderSide ==> dHasMeta(a3) && !dValNil(a3) && dVal(a3) >= 0
 //@   requires vmInput != nil && senderSide ==> !isNil(acntSnd)
 //@   ensures[C01,C10] isErr(err, ErrInvalidArguments) && !failed && !readFailed && seq(vmInput.CallerAddr) != seq(vmInput.RecipientAddr) ==> len(vmInput.Arguments) < 4
 //@   ensures[C11] shape(out, err)
@@ -601,6 +602,10 @@ func lemmaHandOverThenCreate(rt *esdtNFTCreateRoleTransfer, cr *esdtNFTCreate, o
 //@   ensures[C08] err == nil && !readFailed && !senderSide && len(old(St)[rcv][Knft(tok, dMNonce(a3))]) != 0 && dHasMeta(old(St)[rcv][Knft(tok, dMNonce(a3))]) ==> dMHash(old(St)[rcv][Knft(tok, dMNonce(a3))]) == dMHash(a3)
 //@   ensures[C10,C01] err == nil && senderSide && shardOf(a3) != selfShard ==> has(out.OutputAccounts, a3) && wfunc(seq(out.OutputAccounts[a3].OutputTransfers[0].Data)) == "ESDTNFTTransfer" && wcount(seq(out.OutputAccounts[a3].OutputTransfers[0].Data)) == len(vmInput.Arguments) && warg(seq(out.OutputAccounts[a3].OutputTransfers[0].Data), 0) == tok && warg(seq(out.OutputAccounts[a3].OutputTransfers[0].Data), 1) == seq(vmInput.Arguments[1]) && warg(seq(out.OutputAccounts[a3].OutputTransfers[0].Data), 2) == seq(vmInput.Arguments[2])
 //@   ensures[C10,C01,C08] err == nil && !readFailed && senderSide && shardOf(a3) != selfShard ==> !dValNil(warg(seq(out.OutputAccounts[a3].OutputTransfers[0].Data), 3)) && dVal(warg(seq(out.OutputAccounts[a3].OutputTransfers[0].Data), 3)) == q && sameMeta(warg(seq(out.OutputAccounts[a3].OutputTransfers[0].Data), 3), old0)
+//@   ensures[C16,C10] err == nil && !readFailed && senderSide && shardOf(a3) != selfShard ==> warg(seq(out.OutputAccounts[a3].OutputTransfers[0].Data), 3) == reEnc(old0, q)
+//@   ensures[C16] err == nil && !readFailed && senderSide && shardOf(a3) != selfShard ==> vmInput.GasProvided - (out.GasRemaining + fwdGas(out, a3)) == e.funcGasCost + e.gasConfig.DataCopyPerByte * len(reEnc(old0, q))
+//@   ensures[C16] err == nil && senderSide ==> vmInput.GasProvided - (out.GasRemaining + fwdGas(out, a3)) >= e.funcGasCost
+//@   ensures[C10] err != nil && !senderSide && !failed && !readFailed && vmInput != nil && vmInput.CallValue != nil && bigval(vmInput.CallValue) == 0 && len(vmInput.Arguments) >= 4 && isNil(acntSnd) && !isNil(acntDst) ==> (mustVerify(vmInput, 4) && !payable(rcv)) || (!vmInput.ReturnCallAfterError && rcv != ESDTSC() && (frozen(old(St), rcv, Knft(tok, dMNonce(a3))) || frozenProps(dProps(a3)) || paused(old(St), Kesdt(tok)) || paused(old(St), Knft(tok, dMNonce(a3))))) || (len(old(St)[rcv][Knft(tok, dMNonce(a3))]) != 0 && dHasMeta(old(St)[rcv][Knft(tok, dMNonce(a3))]) && dMHash(old(St)[rcv][Knft(tok, dMNonce(a3))]) != dMHash(a3))
 //@   ensures[C04] err == nil && !readFailed && !vmInput.ReturnCallAfterError && senderSide && snd != ESDTSC() ==> !frozen(old(St), snd, Knft(tok, n)) && !paused(old(St), Kesdt(tok))
 //@   ensures[C04] err == nil && !readFailed && !vmInput.ReturnCallAfterError && !senderSide && rcv != ESDTSC() ==> !frozen(old(St), rcv, Knft(tok, dMNonce(a3))) && !paused(old(St), Kesdt(tok)) && !paused(old(St), Knft(tok, dMNonce(a3)))
 //@   ensures[C15] err == nil ==> WFvalues(St)
@@ -617,11 +622,12 @@ func lemmaHandOverThenCreate(rt *esdtNFTCreateRoleTransfer, cr *esdtNFTCreate, o
 //@   view dstA = seq(dstAddress)
 //@   view v0 = bigval(esdtDataToTransfer.Value)
 //@   requires e != nil && !isNil(e.marshalizer) && !isNil(e.pauseHandler) && !isNil(e.payableHandler)
-//@   requires !isNil(userAccount) && addr(userAccount) == seq(dstAddress) && esdtDataToTransfer != nil && esdtDataToTransfer.Value != nil && bigval(esdtDataToTransfer.Value) > 0
+//@   requires !isNil(userAccount) && addr(userAccount) == seq(dstAddress) && esdtDataToTransfer != nil && esdtDataToTransfer.Value != nil && esdtDataToTransfer.Value != zero && bigval(esdtDataToTransfer.Value) >= 0
 //@   requires WFvalues(St) && isTokKey(seq(esdtTokenKey))
 //@   requires[C13] cap(esdtTokenKey) == len(esdtTokenKey) || private(esdtTokenKey)
 //@   ensures[C17] err == nil ==> failed == old(failed)
 //@   ensures old(readFailed) ==> readFailed
+//@   ensures[C10] err != nil && !failed && !readFailed ==> isErr(err, ErrAccountNotPayable) || isErr(err, ErrESDTIsFrozenForAccount) || isErr(err, ErrESDTTokenIsPaused) || isErr(err, ErrWrongNFTOnDestination)
 //@   ensures[C09] err == nil && mustVerifyPayable ==> payable(dstA)
 //@   ensures[C01,C02] err == nil && !readFailed ==> val(St, dstA, Kd) == val(old(St), dstA, Kd) + v0
 //@   ensures[C01,C02,C05,C15] onlyChanged(St, old(St), dstA, Kd)
@@ -629,7 +635,7 @@ func lemmaHandOverThenCreate(rt *esdtNFTCreateRoleTransfer, cr *esdtNFTCreate, o
 //@   ensures[C03] err == nil && !readFailed && !isReturnCallWithError && dstA != ESDTSC() && !frozenProps(seq(esdtDataToTransfer.Properties)) ==> frozen(St, dstA, Kd) == frozen(old(St), dstA, Kd)
 //@   ensures[C03,kf:F12] err == nil && !readFailed && (isReturnCallWithError || dstA == ESDTSC()) ==> frozen(St, dstA, Kd) == frozen(old(St), dstA, Kd)
 //@   ensures[C08] err == nil && !readFailed && len(old(St)[dstA][Kd]) != 0 && dHasMeta(old(St)[dstA][Kd]) ==> esdtDataToTransfer.TokenMetaData != nil && dMHash(old(St)[dstA][Kd]) == seq(esdtDataToTransfer.TokenMetaData.Hash)
-//@   ensures[C08] err == nil ==> St[dstA][Kd] == tokEnc(esdtDataToTransfer) && esdtDataToTransfer.TokenMetaData == old(esdtDataToTransfer.TokenMetaData)
+//@   ensures[C08] err == nil ==> (bigval(esdtDataToTransfer.Value) > 0 ==> St[dstA][Kd] == tokEnc(esdtDataToTransfer)) && (bigval(esdtDataToTransfer.Value) <= 0 ==> len(St[dstA][Kd]) == 0) && esdtDataToTransfer.TokenMetaData == old(esdtDataToTransfer.TokenMetaData)
 //@   ensures[C15] err == nil ==> WFvalues(St)
 //@   ensures[C01,C10] isErr(err, ErrInvalidArguments) ==> failed || readFailed
 //@   modifies St, failed, readFailed, loadFailed, bigval(esdtDataToTransfer.Value)
@@ -676,8 +682,11 @@ func lemmaHandOverThenCreate(rt *esdtNFTCreateRoleTransfer, cr *esdtNFTCreate, o
 //@   loop 0 invariant forall(j, int, 0 <= j && j <= rangeindex ==> seq(multiTransferCallArgs[1 + 3 * j]) == seq(listTokenIDs[j]))
 //@   loop 0 invariant forall(j, int, 0 <= j && j <= rangeindex && listESDTTransferData[j].TokenMetaData != nil ==> seq(multiTransferCallArgs[2 + 3 * j]) == be(listESDTTransferData[j].TokenMetaData.Nonce) && seq(multiTransferCallArgs[3 + 3 * j]) == tokEnc(listESDTTransferData[j]))
 //@   loop 0 invariant forall(j, int, 0 <= j && j <= rangeindex && listESDTTransferData[j].TokenMetaData == nil ==> seq(multiTransferCallArgs[2 + 3 * j]) == "\x00" && seq(multiTransferCallArgs[3 + 3 * j]) == be(iabs(bigval(listESDTTransferData[j].Value))))
+//@   loop 0 invariant vmOutput.GasRemaining == old(vmOutput.GasRemaining) - e.gasConfig.DataCopyPerByte * msum(list(multiTransferCallArgs), rangeindex + 1)
+//@   loop 0 assert msumStep(list(multiTransferCallArgs), rangeindex)
 //@   ensures[C17] err == nil ==> failed == old(failed)
 //@   ensures[C06] err == nil && old(vmOutput.OutputAccounts) == nil ==> onlyRcpt(vmOutput, dstA) && vmOutput.GasRemaining + fwdGas(vmOutput, dstA) <= old(vmOutput.GasRemaining)
+//@   ensures[C16] err == nil && old(vmOutput.OutputAccounts) == nil && shardOf(dstA) != selfShard ==> old(vmOutput.GasRemaining) - (vmOutput.GasRemaining + fwdGas(vmOutput, dstA)) == e.gasConfig.DataCopyPerByte * msum(wlist(seq(vmOutput.OutputAccounts[dstA].OutputTransfers[0].Data)), nL)
 //@   ensures[C01,C10] err == nil && shardOf(dstA) != selfShard ==> has(vmOutput.OutputAccounts, dstA) && wfunc(seq(vmOutput.OutputAccounts[dstA].OutputTransfers[0].Data)) == "MultiESDTNFTTransfer" && warg(seq(vmOutput.OutputAccounts[dstA].OutputTransfers[0].Data), 0) == be(nL)
 //@   ensures[C01,C10] err == nil && shardOf(dstA) != selfShard ==> wcount(seq(vmOutput.OutputAccounts[dstA].OutputTransfers[0].Data)) == 1 + 3 * nL + ite(len(vmInput.Arguments) > 3 * nL + 2, len(vmInput.Arguments) - (3 * nL + 2), 0)
 //@   ensures[C01,C10] err == nil && shardOf(dstA) != selfShard ==> forall(j, int, trigger(warg(seq(vmOutput.OutputAccounts[dstA].OutputTransfers[0].Data), 1 + 3 * j)), 0 <= j && j < nL ==> warg(seq(vmOutput.OutputAccounts[dstA].OutputTransfers[0].Data), 1 + 3 * j) == seq(listTokenIDs[j]))
@@ -707,6 +716,7 @@ func lemmaHandOverThenCreate(rt *esdtNFTCreateRoleTransfer, cr *esdtNFTCreate, o
 //@   ensures[C17] err == nil ==> failed == old(failed)
 //@   ensures[C06] err == nil ==> onlyRcpt(out, dstA) && out.GasRemaining + fwdGas(out, dstA) <= vmInput.GasProvided
 //@   ensures[C16] err == nil ==> out.GasRemaining + fwdGas(out, dstA) <= vmInput.GasProvided - nT * e.funcGasCost && nT > 0
+//@   ensures[C16] err == nil && shardOf(dstA) != selfShard ==> vmInput.GasProvided - (out.GasRemaining + fwdGas(out, dstA)) == nT * e.funcGasCost + e.gasConfig.DataCopyPerByte * msum(wlist(seq(out.OutputAccounts[dstA].OutputTransfers[0].Data)), nT)
 //@   ensures[C09] err == nil ==> len(dstA) == len(snd) && dstA != snd && shardOf(dstA) != 4294967295
 //@   ensures[C09] err == nil && shardOf(dstA) == selfShard && mustVerify(vmInput, 3 * nT + 2) ==> payable(dstA)
 //@   ensures[C02,C05,C15] forall(a, addr, k, bseq, St[a][k] != old(St)[a][k] ==> (a == snd || a == dstA) && isTokKey(k))
@@ -726,7 +736,7 @@ func lemmaHandOverThenCreate(rt *esdtNFTCreateRoleTransfer, cr *esdtNFTCreate, o
 //@   requires sndIsCaller(acntSnd, vmInput) && dstIsRecipient(acntDst, vmInput) && WFvalues(St)
 //@   requires argBounds(vmInput) && costBound(e.funcGasCost) && costBound(e.gasConfig.DataCopyPerByte)
 //@   requires vmInput != nil && senderSide ==> !isNil(acntSnd)
-//@   requires vmInput != nil && !senderSide ==> forall(j, int, 0 <= j && j < len(vmInput.Arguments) ==> !dValNil(lnth(list(vmInput.Arguments), j)) && dVal(lnth(list(vmInput.Arguments), j)) > 0)
+//@   requires vmInput != nil && !senderSide ==> forall(j, int, 0 <= j && j < len(vmInput.Arguments) ==> !dValNil(lnth(list(vmInput.Arguments), j)) && dVal(lnth(list(vmInput.Arguments), j)) >= 0)
 //@   loop 0 invariant i <= numOfTransfers && WFvalues(St) && failed == old(failed) && (old(readFailed) ==> readFailed)
 //@   loop 0 invariant forall(a, addr, k, bseq, St[a][k] != old(St)[a][k] ==> a == rcv && isTokKey(k))
 //@   loop 0 invariant St != old(St) && mustVerify(vmInput, 3 * numOfTransfers + 1) ==> payable(rcv)
@@ -737,6 +747,9 @@ func lemmaHandOverThenCreate(rt *esdtNFTCreateRoleTransfer, cr *esdtNFTCreate, o
 //@   ensures[C06] err == nil && !senderSide ==> onlyRcpt(out, rcv) && out.GasRemaining + fwdGas(out, rcv) <= vmInput.GasProvided
 //@   ensures[C06] err == nil && senderSide ==> onlyRcpt(out, seq(vmInput.Arguments[0])) && out.GasRemaining + fwdGas(out, seq(vmInput.Arguments[0])) <= vmInput.GasProvided
 //@   ensures[C01,C10] err == nil && senderSide && shardOf(seq(vmInput.Arguments[0])) != selfShard ==> has(out.OutputAccounts, seq(vmInput.Arguments[0])) && forall(j, int, trigger(warg(seq(out.OutputAccounts[seq(vmInput.Arguments[0])].OutputTransfers[0].Data), 3 + 3 * j)), 0 <= j && j < beval(seq(vmInput.Arguments[1])) % 18446744073709551616 ==> warg(seq(out.OutputAccounts[seq(vmInput.Arguments[0])].OutputTransfers[0].Data), 1 + 3 * j) == seq(vmInput.Arguments[2 + 3 * j]) && (warg(seq(out.OutputAccounts[seq(vmInput.Arguments[0])].OutputTransfers[0].Data), 3 + 3 * j) == be(beval(seq(vmInput.Arguments[4 + 3 * j]))) || dVal(warg(seq(out.OutputAccounts[seq(vmInput.Arguments[0])].OutputTransfers[0].Data), 3 + 3 * j)) == beval(seq(vmInput.Arguments[4 + 3 * j]))))
+//@   ensures[C16] err == nil && senderSide ==> out.GasRemaining + fwdGas(out, seq(vmInput.Arguments[0])) <= vmInput.GasProvided - (beval(seq(vmInput.Arguments[1])) % 18446744073709551616) * e.funcGasCost
+//@   ensures[C16] err == nil && senderSide && shardOf(seq(vmInput.Arguments[0])) != selfShard ==> vmInput.GasProvided - (out.GasRemaining + fwdGas(out, seq(vmInput.Arguments[0]))) == (beval(seq(vmInput.Arguments[1])) % 18446744073709551616) * e.funcGasCost + e.gasConfig.DataCopyPerByte * msum(wlist(seq(out.OutputAccounts[seq(vmInput.Arguments[0])].OutputTransfers[0].Data)), beval(seq(vmInput.Arguments[1])) % 18446744073709551616)
+//@   ensures[C10] err != nil && !senderSide && !failed && !readFailed && vmInput != nil && vmInput.CallValue != nil && bigval(vmInput.CallValue) == 0 && isNil(acntSnd) && !isNil(acntDst) && !isErr(err, ErrInvalidArguments) ==> isErr(err, ErrAccountNotPayable) || isErr(err, ErrESDTIsFrozenForAccount) || isErr(err, ErrESDTTokenIsPaused) || isErr(err, ErrWrongNFTOnDestination) || isErr(err, ErrOnlyFungibleTokensHaveBalanceTransfer)
 //@   ensures[C01,C10] !senderSide && isErr(err, ErrInvalidArguments) && !failed && !readFailed ==> nD == 0 || nD > len(vmInput.Arguments) || len(vmInput.Arguments) < 3 * nD + 1 || len(vmInput.Arguments) < 2
 //@   ensures[C09] err == nil && !senderSide && St != old(St) && mustVerify(vmInput, 3 * nD + 1) ==> payable(rcv)
 //@   ensures[C09] err == nil && senderSide ==> shardOf(seq(vmInput.Arguments[0])) != 4294967295 && seq(vmInput.Arguments[0]) != snd && len(vmInput.Arguments[0]) == len(vmInput.CallerAddr)
